@@ -28,6 +28,10 @@ import (
 	"net/http/httptest"
 	"net/textproto"
 	"strings"
+	"time"
+
+	"github.com/chrislusf/seaweedfs/weed/filer"
+	"github.com/chrislusf/seaweedfs/weed/util"
 
 	"verifharness/hx"
 )
@@ -69,15 +73,42 @@ type reqSpec struct {
 	ending   int
 	failMode int
 	failK    int
+	pname    string // POST multipart: file name of the part ("" = none)
+	slowHead bool   // the upload of chunk 0 takes longer than the others (out-of-order completion)
 }
 
 type target struct {
-	dir  string // "/c25/s7" or "/etc/c25/s7"
-	name string // "f", "f.txt"
-	etc  bool
+	dir        string // "/c25/s7" or "/etc/c25/s7"
+	name       string // "f", "f.txt"
+	etc        bool
+	parentFile bool // dir itself is a regular file
 }
 
 func (t target) path() string { return t.dir + "/" + t.name }
+
+// the two paths saveMetaData can write to: a = the URL path (after a trailing
+// "/" received the file name), b = a + "/" + fileName ("" when there is no file name)
+type slots struct {
+	a, b     string
+	slash    bool
+	fileName string
+}
+
+func (q *reqSpec) slots(t target) slots {
+	sl := slots{a: t.path(), fileName: t.name}
+	switch q.method {
+	case mPostFormPath:
+		sl.fileName = q.pname
+	case mPostFormDir:
+		sl.fileName = q.pname
+		sl.a = t.dir + "/" + q.pname
+		sl.slash = true
+	}
+	if sl.fileName != "" {
+		sl.b = sl.a + "/" + sl.fileName
+	}
+	return sl
+}
 
 var errBody = errors.New("c25: scripted body read failure")
 
@@ -168,7 +199,11 @@ func buildRequest(t target, q *reqSpec) *http.Request {
 		var buf bytes.Buffer
 		mw := multipart.NewWriter(&buf)
 		h := make(textproto.MIMEHeader)
-		h.Set("Content-Disposition", fmt.Sprintf(`form-data; name="file"; filename="%s"`, t.name))
+		if q.pname != "" {
+			h.Set("Content-Disposition", fmt.Sprintf(`form-data; name="file"; filename="%s"`, q.pname))
+		} else {
+			h.Set("Content-Disposition", `form-data; name="file"`)
+		}
 		h.Set("Content-Type", "application/octet-stream")
 		pw, err := mw.CreatePart(h)
 		must(err)
@@ -194,8 +229,8 @@ func buildRequest(t target, q *reqSpec) *http.Request {
 	}
 }
 
-// run performs one request and returns (status class, a scripted permanent failure was hit).
-func (w *world) run(t target, q *reqSpec) (string, bool) {
+// run performs one request and returns (status class, a scripted permanent failure was hit, HTTP status code).
+func (w *world) run(t target, q *reqSpec) (string, bool, int) {
 	w.vol.reset()
 	w.master.mu.Lock()
 	w.master.failAssign = q.failMode == fAssignAll
@@ -208,6 +243,9 @@ func (w *world) run(t target, q *reqSpec) (string, bool) {
 		} else {
 			w.vol.transient[string(slices[q.failK])] = 1
 		}
+	}
+	if q.slowHead && len(slices) > 1 {
+		w.vol.delay[string(slices[0])] = 4 * time.Millisecond
 	}
 	maxmb := 1
 	if q.big {
@@ -240,7 +278,7 @@ func (w *world) run(t target, q *reqSpec) (string, bool) {
 	w.vol.mu.Lock()
 	hit = hit || w.vol.permHit
 	w.vol.mu.Unlock()
-	return status, hit
+	return status, hit, rec.Code
 }
 
 // upfail list for the model: which chunk indices fail permanently.
@@ -276,16 +314,35 @@ func tagOf(sum []byte) string {
 	return hx.Some(hx.N(uint64(binary.BigEndian.Uint32(sum[:4]))))
 }
 
-func coqEntry(e *obsEntry) string {
+func coqNode(e *obsEntry) string {
 	if e == nil {
-		return "None"
+		return "NMissing"
 	}
 	cks := []string{}
 	for _, c := range e.chunks {
 		cks = append(cks, fmt.Sprintf("Ck %s %s %s", hx.N(uint64(c.off)), hx.N(c.size), hx.Bytes(c.data)))
 	}
-	return hx.Some(fmt.Sprintf("{| e_size := %s; e_content := %s; e_chunks := %s; e_md5 := %s |}",
-		hx.N(e.size), hx.Bytes(e.content), hx.List(cks), tagOf(e.md5)))
+	rec := fmt.Sprintf("{| e_size := %s; e_content := %s; e_chunks := %s; e_md5 := %s |}",
+		hx.N(e.size), hx.Bytes(e.content), hx.List(cks), tagOf(e.md5))
+	if e.isDir {
+		return "(NDir " + rec + ")"
+	}
+	return "(NFile " + rec + ")"
+}
+
+func coqBytesList(l [][]byte) string {
+	out := []string{}
+	for _, b := range l {
+		out = append(out, hx.Bytes(b))
+	}
+	return hx.List(out)
+}
+
+func coqOptBytes(ok bool, b []byte) string {
+	if !ok {
+		return "None"
+	}
+	return hx.Some(hx.Bytes(b))
 }
 
 func crc(b []byte) uint64 { return uint64(crc32.ChecksumIEEE(b)) }
@@ -320,18 +377,36 @@ func endingOf(q *reqSpec) string {
 	return endName[q.ending]
 }
 
-func smallTerm(t target, q *reqSpec, pre, post *obsEntry, status string, hit bool) string {
+// everything observed around one Small request
+type smallObs struct {
+	sl                slots
+	preA, preB        *obsEntry
+	postA, postB      *obsEntry
+	status            string
+	hit               bool
+	deleted, leaked   [][]byte
+	replaced          int
+	rFrom, rLen       int
+	getOK, getRangeOK bool
+	get, getRange     []byte
+}
+
+func smallTerm(t target, q *reqSpec, o *smallObs) string {
 	tab := make([]uint64, len(q.body)+1)
 	for n := 0; n <= len(q.body); n++ {
 		tab[n] = md5tag(q.body[:n])
 	}
-	return fmt.Sprintf("Small {| sc_method := %s; sc_append := %s; sc_etc := %s; sc_cs := %s; sc_limit := %s; sc_body := %s; sc_end := %s; sc_upfail := %s; sc_md5tab := %s; sc_pre := %s; si_status := %s; si_upfail_hit := %s; si_post := %s |}",
+	return fmt.Sprintf("Small {| sc_method := %s; sc_append := %s; sc_etc := %s; sc_cs := %s; sc_limit := %s; sc_body := %s; sc_end := %s; sc_upfail := %s; sc_md5tab := %s; sc_slash := %s; sc_hasname := %s; sc_parent_file := %s; sc_a := %s; sc_b := %s; sc_range := %s; si_status := %s; si_upfail_hit := %s; si_a := %s; si_b := %s; si_deleted := %s; si_leaked := %s; si_replaced := %s; si_get := %s; si_get_range := %s |}",
 		methodName[q.method], hx.Bool(q.app), hx.Bool(t.etc), hx.Z(int64(q.cs)), hx.Z(q.limit),
 		hx.Bytes(q.body), endingOf(q), hx.List(q.upfail()), hx.NList(tab),
-		coqEntry(pre), status, hx.Bool(hit), coqEntry(post))
+		hx.Bool(o.sl.slash), hx.Bool(o.sl.fileName != ""), hx.Bool(t.parentFile),
+		coqNode(o.preA), coqNode(o.preB), hx.Pair(hx.N(uint64(o.rFrom)), hx.N(uint64(o.rLen))),
+		o.status, hx.Bool(o.hit), coqNode(o.postA), coqNode(o.postB),
+		coqBytesList(o.deleted), coqBytesList(o.leaked), hx.N(uint64(o.replaced)),
+		coqOptBytes(o.getOK, o.get), coqOptBytes(o.getRangeOK, o.getRange))
 }
 
-func bigTerm(t target, q *reqSpec, pre, post *obsEntry, status string, hit bool) string {
+func bigTerm(t target, q *reqSpec, pre, post *obsEntry, status string, hit bool, code int) string {
 	cuts := []int{0}
 	for a := MiB; a < len(q.body); a += MiB {
 		cuts = append(cuts, a)
@@ -346,20 +421,25 @@ func bigTerm(t target, q *reqSpec, pre, post *obsEntry, status string, hit bool)
 			slices = append(slices, fmt.Sprintf("(%s, %s, %s)", hx.N(uint64(a)), hx.N(uint64(b)), hx.N(crc(q.body[a:b]))))
 		}
 	}
-	return fmt.Sprintf("Big {| bc_method := %s; bc_append := %s; bc_etc := %s; bc_maxmb_q := %s; bc_maxmb_opt := %s; bc_limit := %s; bc_len := %s; bc_end := %s; bc_upfail := %s; bc_slices := %s; bc_md5tab := %s; bc_pre := %s; bi_status := %s; bi_upfail_hit := %s; bi_post := %s |}",
+	return fmt.Sprintf("Big {| bc_method := %s; bc_append := %s; bc_etc := %s; bc_maxmb_q := %s; bc_maxmb_opt := %s; bc_limit := %s; bc_len := %s; bc_end := %s; bc_upfail := %s; bc_slices := %s; bc_md5tab := %s; bc_parent_file := %s; bc_pre := %s; bi_status := %s; bi_code := %s; bi_upfail_hit := %s; bi_post := %s |}",
 		methodName[q.method], hx.Bool(q.app), hx.Bool(t.etc), hx.Z(int64(q.maxmbQ)), hx.Z(int64(q.maxmbOpt)), hx.Z(q.limit),
 		hx.N(uint64(len(q.body))), endingOf(q), hx.List(q.upfail()), hx.List(slices), hx.List(tab),
-		coqSummary(pre), status, hx.Bool(hit), coqSummary(post))
+		hx.Bool(t.parentFile), coqSummary(pre), status, hx.N(uint64(code)), hx.Bool(hit), coqSummary(post))
 }
 
-func canon(t target, q *reqSpec, pre *obsEntry) string {
+func canonEntry(pre *obsEntry) string {
 	p := "-"
 	if pre != nil {
-		p = fmt.Sprintf("%d/%d/", pre.size, len(pre.content))
+		p = fmt.Sprintf("%v/%d/%d/", pre.isDir, pre.size, len(pre.content))
 		for _, c := range pre.chunks {
 			p += fmt.Sprintf("%d+%d,", c.off, c.size)
 		}
 	}
+	return p
+}
+
+func canon(t target, q *reqSpec, pre, preB *obsEntry) string {
+	p := canonEntry(pre) + "|" + canonEntry(preB) + fmt.Sprintf("|pf=%v pn=%s", t.parentFile, q.pname)
 	return fmt.Sprintf("big=%v m=%d app=%v etc=%v name=%s cs=%d q=%d o=%d lim=%d ci=%v len=%d crc=%d end=%d fail=%d.%d pre=%s",
 		q.big, q.method, q.app, t.etc, t.name, q.cs, q.maxmbQ, q.maxmbOpt, q.limit, q.cipher, len(q.body), crc(q.body), q.ending, q.failMode, q.failK, p)
 }
@@ -377,9 +457,45 @@ func (g *gen) newTarget(etc bool, name string) target {
 	g.seq++
 	d := fmt.Sprintf("/c25/s%d", g.seq)
 	if etc {
-		d = "/etc" + d
+		d = filer.DirectoryEtcRoot + d // "/etc": the prefix uploadReaderToChunks tests
 	}
 	return target{dir: d, name: name, etc: etc}
+}
+
+func (w *world) observeOpt(path string) *obsEntry {
+	if path == "" {
+		return nil
+	}
+	return w.observe(path)
+}
+
+func fidsOf(es ...*obsEntry) map[string]bool {
+	m := map[string]bool{}
+	for _, e := range es {
+		if e != nil {
+			for _, c := range e.chunks {
+				m[c.fid] = true
+			}
+		}
+	}
+	return m
+}
+
+// clear content of a non-encrypted stored blob
+func (w *world) clearOf(fid string) []byte {
+	w.vol.mu.Lock()
+	b, ok := w.vol.blobs[fid]
+	w.vol.mu.Unlock()
+	if !ok {
+		return []byte("<missing blob>")
+	}
+	if b.gz {
+		if d, err := util.DecompressData(b.data); err == nil {
+			return d
+		}
+		return []byte("<gunzip error>")
+	}
+	return b.data
 }
 
 // emit runs one request on the target and records the case.
@@ -387,17 +503,102 @@ func (g *gen) emit(t target, q *reqSpec, kind string) {
 	if g.out.Len() >= g.out.N {
 		return
 	}
-	pre := g.w.observe(t.path())
-	status, hit := g.w.run(t, q)
-	post := g.w.observe(t.path())
-	var term string
 	if q.big {
-		term = bigTerm(t, q, pre, post, status, hit)
-	} else {
-		term = smallTerm(t, q, pre, post, status, hit)
+		pre := g.w.observe(t.path())
+		g.w.takeDeletions()
+		status, hit, code := g.w.run(t, q)
+		g.w.takeDeletions()
+		post := g.w.observe(t.path())
+		g.out.Add(bigTerm(t, q, pre, post, status, hit, code), canon(t, q, pre, nil), status == "Created" && len(q.body) > 0 && post != nil, kind)
+		g.count(q, pre, post, status)
+		g.out.Count(fmt.Sprintf("big:code=%d", code), 1)
+		return
 	}
-	nontrivial := status == "Created" && len(q.body) > 0 && post != nil
-	g.out.Add(term, canon(t, q, pre), nontrivial, kind)
+	o := &smallObs{sl: q.slots(t)}
+	o.preA, o.preB = g.w.observe(o.sl.a), g.w.observeOpt(o.sl.b)
+	redirect := !o.sl.slash && o.sl.fileName != "" && o.preA != nil && o.preA.isDir
+	preT := o.preA
+	if redirect {
+		preT = o.preB
+	}
+	// the clear content of an encrypted blob that no entry references cannot be
+	// recovered: no cipher where uploads may be left behind or deleted
+	if q.cipher && (q.ending != endEof || q.failMode != fNone || t.parentFile ||
+		(preT != nil && (preT.isDir || len(preT.content) > 0))) {
+		q.cipher = false
+	}
+	g.w.takeDeletions()
+	o.status, o.hit, _ = g.w.run(t, q)
+	o.postA, o.postB = g.w.observe(o.sl.a), g.w.observeOpt(o.sl.b)
+	del := g.w.pendingDeletions()
+	g.w.vol.mu.Lock()
+	uploaded := append([]string(nil), g.w.vol.uploaded...)
+	g.w.vol.mu.Unlock()
+	referenced := fidsOf(o.postA, o.postB)
+	for _, fid := range uploaded {
+		switch {
+		case del[fid]:
+			o.deleted = append(o.deleted, g.w.clearOf(fid))
+		case !referenced[fid]:
+			o.leaked = append(o.leaked, g.w.clearOf(fid))
+		}
+	}
+	for fid := range fidsOf(o.preA, o.preB) {
+		if del[fid] {
+			o.replaced++
+		}
+	}
+	g.w.dropBlobs(del)
+	postT, pathT := o.postA, o.sl.a
+	if redirect {
+		postT, pathT = o.postB, o.sl.b
+	}
+	if o.status == "Created" && postT != nil && !postT.isDir {
+		code, body := g.w.get(pathT, 0, 0)
+		o.getOK, o.get = code == http.StatusOK, body
+		if total := len(body); code == http.StatusOK && total > 0 {
+			h := int(crc(q.body)>>3) + 7*g.out.Len()
+			o.rFrom = h % total
+			o.rLen = 1 + (h/97)%(total-o.rFrom)
+			code, rb := g.w.get(pathT, int64(o.rFrom), int64(o.rLen))
+			o.getRangeOK, o.getRange = code == http.StatusPartialContent, rb
+		}
+	}
+	pre, post := preT, postT
+	status := o.status
+	g.out.Add(smallTerm(t, q, o), canon(t, q, o.preA, o.preB), status == "Created" && len(q.body) > 0 && post != nil, kind)
+	g.count(q, pre, post, status)
+	oc := g.out
+	if redirect {
+		oc.Count("path:redirected-into-directory", 1)
+	}
+	if t.parentFile {
+		oc.Count("path:below-a-file", 1)
+	}
+	if preT != nil && preT.isDir {
+		oc.Count("path:target-is-directory", 1)
+	}
+	if o.sl.fileName == "" {
+		oc.Count("path:no-file-name", 1)
+	}
+	if len(o.leaked) > 0 {
+		oc.Count("chunks:leaked", 1)
+	}
+	if len(o.deleted) > 0 {
+		oc.Count("chunks:new-deleted", 1)
+	}
+	if o.replaced > 0 {
+		oc.Count("chunks:replaced-deleted", 1)
+	}
+	if q.slowHead {
+		oc.Count("upload:head-chunk-delayed", 1)
+	}
+	if o.getRangeOK {
+		oc.Count("get:ranged", 1)
+	}
+}
+
+func (g *gen) count(q *reqSpec, pre, post *obsEntry, status string) {
 	o := g.out
 	o.Count("status:"+status, 1)
 	o.Count("method:"+[]string{"put", "post-form-dir", "post-form-path", "post-raw"}[q.method], 1)
@@ -476,8 +677,8 @@ func genBody(r *hx.Rng, n int, noCR bool) []byte {
 
 var smallCS = []int{1, 2, 3, 4, 5, 8, 16}
 
-func (g *gen) smallSpec(r *hx.Rng, cs int, limit int64) *reqSpec {
-	q := &reqSpec{cs: int32(cs), limit: limit}
+func (g *gen) smallSpec(r *hx.Rng, t target, cs int, limit int64) *reqSpec {
+	q := &reqSpec{cs: int32(cs), limit: limit, pname: t.name}
 	switch k := r.Intn(20); {
 	case k < 10:
 		q.method = mPut
@@ -488,6 +689,13 @@ func (g *gen) smallSpec(r *hx.Rng, cs int, limit int64) *reqSpec {
 	default:
 		q.method = mPostRaw
 	}
+	switch k := r.Intn(16); {
+	case k == 0:
+		q.pname = "g" // a part file name different from the last path element
+	case k == 1 && q.method == mPostFormPath:
+		q.pname = "" // no file name at all
+	}
+	q.slowHead = r.Chance(1, 4)
 	lens := []int{0, 1, cs - 1, cs, cs + 1, 2*cs - 1, 2 * cs, 2*cs + 1, 3*cs + 2, 5 * cs,
 		int(limit) - 1, int(limit), int(limit) + 1, r.Intn(40), r.Intn(12)}
 	n := lens[r.Intn(len(lens))]
@@ -508,14 +716,26 @@ func (g *gen) smallSpec(r *hx.Rng, cs int, limit int64) *reqSpec {
 	q.body = genBody(r, n, q.ending != endEof)
 	q.app = r.Chance(2, 5)
 	q.cipher = r.Chance(1, 6)
+	nsl := (n + cs - 1) / cs
+	if nsl < 1 {
+		nsl = 1
+	}
+	failK := r.Intn(nsl) // any chunk
+	if r.Chance(1, 3) {
+		failK = nsl - 1 // the last (maybe partial) one
+	}
 	switch k := r.Intn(150); {
-	case k == 0 && g.slow < 2 && !q.cipher:
-		q.failMode, q.failK = fPoison, r.Intn(3)
+	case k < 3 && g.slow < 3 && !q.cipher:
+		q.failMode, q.failK = fPoison, failK
 		g.slow++
-	case k < 4:
+	case k < 6:
 		q.failMode = fAssignAll
-	case k < 10 && !q.cipher:
-		q.failMode, q.failK = fTransient, r.Intn(3)
+		// every chunk costs 1.5 s of retry sleeps, four at a time: at most 4 chunks (+ sometimes a 5th)
+		if max := 4*cs + r.Intn(2)*r.Intn(cs+1); len(q.body) > max {
+			q.body = q.body[:max]
+		}
+	case k < 12 && !q.cipher:
+		q.failMode, q.failK = fTransient, failK
 	}
 	return q
 }
@@ -527,7 +747,24 @@ func (g *gen) smallSequence(r *hx.Rng) {
 	name := r.PickStr([]string{"f", "f", "f.txt", "f.jpg"})
 	t := g.newTarget(r.Chance(1, 10), name)
 	// initial state
-	switch k := r.Intn(10); {
+	k0 := r.Intn(12)
+	switch k := k0; {
+	case k == 10:
+		// the URL path is a directory; below it <name> is missing / a file / a directory
+		g.w.createDir(t.path())
+		switch r.Intn(5) {
+		case 0:
+			g.w.createViaGrpc(t.path()+"/"+t.name, []int64{0}, [][]byte{genBody(r, r.Range(1, 5), false)}, uint64(r.Intn(3)))
+		case 1:
+			g.w.createDir(t.path() + "/" + t.name)
+		}
+		g.out.Count("init:directory", 1)
+	case k == 11:
+		// the parent "directory" of the URL path is a regular file
+		t.dir += "/p"
+		t.parentFile = true
+		g.w.createViaGrpc(t.dir, []int64{0}, [][]byte{[]byte("file")}, 4)
+		g.out.Count("init:parent-is-file", 1)
 	case k < 3:
 		// created through the gRPC path: contiguous chunks, FileSize attribute chosen
 		nch := r.Range(1, 3)
@@ -563,7 +800,7 @@ func (g *gen) smallSequence(r *hx.Rng) {
 	}
 	nreq := r.Range(1, 4)
 	for i := 0; i < nreq; i++ {
-		q := g.smallSpec(r, cs, limit)
+		q := g.smallSpec(r, t, cs, limit)
 		if i == 0 && r.Chance(1, 2) {
 			q.app = r.Chance(1, 3)
 		}
@@ -597,9 +834,17 @@ func (g *gen) bigSequence(r *hx.Rng) {
 		q.failMode = fAssignAll
 	}
 	t := g.newTarget(r.Chance(1, 8), r.PickStr([]string{"f", "f.txt"}))
+	q.pname = t.name
+	q.slowHead = r.Chance(1, 3)
+	if r.Chance(1, 10) {
+		// the parent "directory" is a regular file: CreateEntry refuses, 409
+		t.dir += "/p"
+		t.parentFile = true
+		g.w.createViaGrpc(t.dir, []int64{0}, [][]byte{[]byte("file")}, 4)
+	}
 	if r.Chance(1, 4) {
 		// an HTTP-created chunked file first, then an append
-		q0 := &reqSpec{big: true, maxmbOpt: 1, method: mPut, body: genBody(r, r.PickInt([]int{MiB, MiB + 7, 5}), false), app: true}
+		q0 := &reqSpec{big: true, maxmbOpt: 1, method: mPut, pname: "f", body: genBody(r, r.PickInt([]int{MiB, MiB + 7, 5}), false), app: true}
 		g.emit(t, q0, "big")
 		q.app = true
 	} else {
@@ -630,14 +875,57 @@ func (g *gen) witnesses() {
 	}
 	g.emit(g.newTarget(false, "f"), &reqSpec{big: true, method: mPut, maxmbOpt: 1, body: body, ending: endErr}, "witness0")
 	g.emit(g.newTarget(true, "f"), &reqSpec{big: true, method: mPut, maxmbOpt: 1, body: body}, "witness2")
+	// finding 0: ?op=append resolved to a DIRECTORY (multipart POST without a file
+	// name onto a directory path): 201 and the chunks hang on the directory entry
+	t = g.newTarget(false, "d")
+	g.w.createDir(t.path())
+	g.emit(t, &reqSpec{method: mPostFormPath, cs: 2, body: []byte{1, 2, 3}, app: true}, "finding0")
+	// the same through PUT: /d and /d/d are both directories
+	t = g.newTarget(false, "d")
+	g.w.createDir(t.path())
+	g.w.createDir(t.path() + "/d")
+	g.emit(t, &reqSpec{method: mPut, cs: 2, body: []byte{1, 2, 3}, app: true}, "finding0")
+}
+
+// fixed multi-step sequences (independent of the seed)
+func (g *gen) fixedSequences() {
+	// PUT onto a directory: redirected to <dir>/<name>; then replaced; then appended
+	t := g.newTarget(false, "d")
+	g.w.createDir(t.path())
+	g.emit(t, &reqSpec{method: mPut, cs: 2, body: []byte{1, 2, 3}}, "redirect")
+	g.emit(t, &reqSpec{method: mPut, cs: 2, body: []byte{4, 5, 6, 7, 8}, slowHead: true}, "redirect")
+	g.emit(t, &reqSpec{method: mPut, cs: 2, body: []byte{9}, app: true}, "redirect")
+	// PUT below a regular file: 409, the uploaded chunks are deleted
+	t = g.newTarget(false, "f")
+	t.dir += "/p"
+	t.parentFile = true
+	g.w.createViaGrpc(t.dir, []int64{0}, [][]byte{[]byte("file")}, 4)
+	g.emit(t, &reqSpec{method: mPut, cs: 2, body: []byte{1, 2, 3}}, "below-file")
+	g.emit(t, &reqSpec{method: mPostFormDir, pname: "f", cs: 2, body: []byte{1, 2, 3}, app: true}, "below-file")
+	// the same through the real autoChunk: 409
+	g.emit(t, &reqSpec{big: true, method: mPut, maxmbOpt: 1, body: []byte("hello")}, "below-file")
+	// PUT over a directory without redirection (multipart without file name): 500, chunks deleted
+	t = g.newTarget(false, "d")
+	g.w.createDir(t.path())
+	g.emit(t, &reqSpec{method: mPostFormPath, cs: 2, body: []byte{1, 2, 3, 4}}, "over-directory")
+	// success, then a permanent upload failure at the last partial chunk (two
+	// chunks stay behind), then success again on the same path
+	t = g.newTarget(false, "f")
+	g.emit(t, &reqSpec{method: mPut, cs: 2, body: []byte{1, 2, 3, 4, 5}}, "fail-after-success")
+	g.emit(t, &reqSpec{method: mPut, cs: 2, body: []byte{6, 7, 8, 9, 10}, failMode: fPoison, failK: 2}, "fail-after-success")
+	g.emit(t, &reqSpec{method: mPut, cs: 2, body: []byte{11, 12, 13}, app: true}, "fail-after-success")
+	g.emit(t, &reqSpec{method: mPut, cs: 2, body: []byte{14, 15, 16}, ending: endErr}, "fail-after-success")
+	g.emit(t, &reqSpec{method: mPut, cs: 4, limit: 4, body: []byte{17, 18}}, "fail-after-success")
+	g.emit(t, &reqSpec{method: mPut, cs: 2, body: []byte{19, 20, 21}, app: true}, "fail-after-success")
 }
 
 func main() {
 	out := hx.Flags("C25", 150)
-	out.Rule = "sequences of 1-4 write requests on one path through the real filer write handlers over leveldb2 with a fake master (Assign) and a fake volume server; Small cases: chunk size in {1,2,3,4,5,8,16} BYTES entered through the verif hook (doPutAutoChunk/doPostAutoChunk called with an explicit chunk size), saveToFilerLimit in {0,1,cs-1,cs,cs+1,2cs+1,100}, body lengths around 0/limit/chunk multiples, body ending Eof / read error (separately or together with the last bytes), methods PUT / POST multipart (dir URL, path URL) / POST raw, op=append after HTTP-created, gRPC-created (FileSize attribute 0 / extent-1 / extent / above) and missing entries, cipher on/off, compressible and binary contents, scripted failures (all assigns, one chunk always, one chunk once); Big cases: the same through filerHandler/PostHandler/autoChunk with maxMB 1 or 2 (and a few rejected values: 0, negative, 2048, 4097) and bodies of 0,1,limit+-1,1MiB+-1,2MiB+-1,2.5MiB (lengths, offsets, CRC32s to Coq); the first 7 cases are the fixed inputs on which the unrepaired code failed (former findings 0-3); non-trivial = status 201 with a non-empty body and a stored entry; distinct = canonical request parameters + body CRC + pre-state shape"
+	out.Rule = "sequences of 1-4 write requests on one path through the real filer write handlers over leveldb2 with a fake master (Assign, volume locations) and a fake volume server (writes through operation.HttpClient, reads through a real HTTP listener); Small cases: chunk size in {1,2,3,4,5,8,16} BYTES entered through the verif hook (doPutAutoChunk/doPostAutoChunk called with an explicit chunk size), saveToFilerLimit in {0,1,cs-1,cs,cs+1,2cs+1,100}, body lengths around 0/limit/chunk multiples, body ending Eof / read error (separately or together with the last bytes), methods PUT / POST multipart (dir URL, path URL; part file name = last path element / different / absent) / POST raw, op=append, pre-states of the path: missing, HTTP-created, gRPC-created (FileSize attribute 0 / extent-1 / extent / above, holes), a DIRECTORY (with missing / file / directory below it under the file name), a regular FILE as parent directory; cipher on/off, compressible and binary contents, scripted failures (all assigns, one chunk always, one chunk once; any chunk index incl. the last partial one), chunk 0 uploaded slower than the others in 1/4 of the cases; observed: status, both candidate paths (entry, file/directory), chunks handed to DeleteChunks, chunks left unreferenced, full and ranged GET through the real read handler; Big cases: the same through filerHandler/PostHandler/autoChunk with maxMB 1 or 2 (and a few rejected values: 0, negative, 2048, 4097) and bodies of 0,1,limit+-1,1MiB+-1,2MiB+-1,2.5MiB (lengths, offsets, CRC32s, status code to Coq); the first 7 cases are the fixed inputs on which the unrepaired code failed (former findings 0-3), cases 7-8 the witnesses of known finding 0 (append onto a directory), then 15 fixed multi-step cases (redirect into a directory, PUT below a file, POST over a directory, failure after success on one path); non-trivial = status 201 with a non-empty body and a stored entry; distinct = canonical request parameters + body CRC + pre-state shape of both paths"
 	g := &gen{w: newWorld(), out: out}
 	defer g.w.close()
 	g.witnesses()
+	g.fixedSequences()
 	root := hx.NewRng(out.Seed)
 	for out.Len() < out.N {
 		r := root.Fork()
